@@ -96,7 +96,7 @@ class Demo:
             shutil.copy(s + "/demo.rs", WT + "/examples/demo.rs")
             e = dict(env)
             e["WT"] = WT
-            rc, out = sh("python3 %s/demo.py 2>&1 | tail -25" % s, cwd=WT, env=e, timeout=900)
+            rc, out = sh("python3 %s/demo.py %s 2>&1 | tail -25" % (s, WT), cwd=WT, env=e, timeout=900)
             os.remove(WT + "/examples/demo.rs")
             return rc == 0, "examples/demo.rs; WT=<worktree> python3 demo.py (exit %d)" % rc, out
         return None, "no demonstration", ""
